@@ -330,10 +330,20 @@ package keeper
 //@   inline
 //@ func Keeper.IterateBeaconTimestampsReverse(ctx, beaconID, cb)
 //@   inline
+// The registrations as listed for the genesis export: every stored registration exactly once, in ascending id order,
+// decoded as stored (requires that a registration is stored under its own id, part of BEA_INV).
 //@ func Keeper.GetAllBeacons(ctx) (beacons)
 //@   props C15
 //@   pure
-//@   loop IterateBeacons.0: invariant it_store == bea_store && bea_store == old(bea_store)
+//@   requires forall i int :: {bea_store[kBeacon(i)]} bcHas(bea_store, i) ==> 0 <= i && i < 2^64 && bcGet(bea_store, i).BeaconId == i
+//@   ensures @ascending forall i int, j int :: {beacons[i], beacons[j]} 0 <= i && i < j && j < len(beacons) ==> beacons[i].BeaconId < beacons[j].BeaconId
+//@   ensures @as_stored forall j int :: {beacons[j]} 0 <= j && j < len(beacons) ==> bcHas(bea_store, beacons[j].BeaconId) && beacons[j] == bcGet(bea_store, beacons[j].BeaconId)
+//@   ensures @all_stored forall x uint64 :: {bea_store[kBeacon(x)]} bcHas(bea_store, x) ==> exists j int :: 0 <= j && j < len(beacons) && beacons[j].BeaconId == x
+//@   loop IterateBeacons.0: invariant it_store == bea_store && bea_store == old(bea_store) && len(beacons) >= 0
+//@   loop IterateBeacons.0: invariant it_valid ==> bcHas(bea_store, beaconKeyId(it_key)) && it_key == kBeacon(beaconKeyId(it_key))
+//@   loop IterateBeacons.0: invariant forall i int, j int :: {beacons[i], beacons[j]} 0 <= i && i < j && j < len(beacons) ==> beacons[i].BeaconId < beacons[j].BeaconId
+//@   loop IterateBeacons.0: invariant forall j int :: {beacons[j]} 0 <= j && j < len(beacons) ==> bcHas(bea_store, beacons[j].BeaconId) && beacons[j] == bcGet(bea_store, beacons[j].BeaconId) && (it_valid ==> beacons[j].BeaconId < beaconKeyId(it_key))
+//@   loop IterateBeacons.0: invariant forall x uint64 :: {bea_store[kBeacon(x)]} bcHas(bea_store, x) && (!it_valid || x < beaconKeyId(it_key)) ==> exists j int :: 0 <= j && j < len(beacons) && beacons[j].BeaconId == x
 // The timestamp listing of the genesis export (C15): the newest 20,000 timestamps of the registration (all of them when
 // there are fewer), in ascending id order, each in its genesis form exactly as stored, and without gaps - every stored
 // timestamp at or above the lowest exported id is in the list.
